@@ -94,6 +94,7 @@ NON_ALIGNMENT = {"Tr": "Translation", "US": "UniformScale", "Rot": "Rotation", "
 
 
 PERMS = ("reversed", "rot1", "shuffle")
+SCALES = (1e-3, 1e-6, 1e6)
 
 
 def permutation(m, name):
@@ -548,6 +549,7 @@ class C07(Check):
         self._src_cache = {}
         self._k = 1.0  # tolerance multiplier of the op being checked (float32 letters)
         self._form = ("f64", "f64")
+        self._unit = 1.0  # magnitude letter of the op being checked: every tolerance is relative to it
         self._exact = True  # the target is exactly member(source) at noise 0 (false when it had to be rounded)
 
     def depth(self):
@@ -662,6 +664,12 @@ class C07(Check):
                         if fs == "u8" and ft == "u8" and m[0] not in ("sc", "arb"):
                             continue  # the image must stay inside the range of the unsigned type
                         out.append(("alignf", m, nz, fs, ft))
+            # magnitude letters (small subset of roots): the reduced members, mirrored targets included, at other scales
+            if cls in HOMOG and st["root"][2] == "g4":
+                for u in SCALES:
+                    for nz in NOISE_FORM:
+                        for m in member_letters(d, "small"):
+                            out.append(("scale", u, m, nz))
             # the same correspondences given in another order (source and target permuted consistently)
             for pn in ("reversed", "shuffle"):
                 for nz in NOISE_FORM:
@@ -808,6 +816,7 @@ class C07(Check):
 
     # ------------------------------------------------------------------ step
     def apply(self, st, op, verify=True):
+        self._unit = 1.0
         if op[0] in ("gpa", "gpaf"):
             return self._apply_gpa(st, op, verify)
         if op[0] == "refuse":
@@ -828,6 +837,16 @@ class C07(Check):
             self.note("form:%s>%s" % (fs, ft))
             if ft in INT_FORMS and fs not in INT_FORMS and noise == 0.0 and member[0] != "arb":
                 self.note("form:integer-target-is-exact-image-of-noninteger-source")
+        elif op[0] == "scale":
+            # the same payload at another magnitude: coordinates, translation of the member and noise times u
+            _, u, member, noise = op
+            fs = ft = "f64"
+            s = u * st["S"]
+            t = u * self._target(st["S"].copy(), member, noise)
+            self._k, self._unit = 1.0, float(u)
+            self.note("scale:%g" % u)
+            if member[0] in ("refl", "simrefl"):
+                self.note("scale:%g:mirrored-target" % u)
         else:
             _, member, noise = op
             fs = ft = "f64"
@@ -850,8 +869,8 @@ class C07(Check):
                 return fails
             raise
         st["level"] += 1
-        st["live"] = {"al": al, "src": src, "tgt": tgt, "s": s, "t": t, "member": member, "noise": noise, "forms": (fs, ft), "tri": tri}
-        st["tkey"] = (obs_key(t), fs, ft)
+        st["live"] = {"al": al, "src": src, "tgt": tgt, "s": s, "t": t, "member": member, "noise": noise, "forms": (fs, ft) if op[0] != "scale" else ("scale", op[1]), "tri": tri}
+        st["tkey"] = (obs_key(t / self._unit), fs, ft, self._unit)
         # deeper levels: only behind an affine family member with noise 0 or 0.1 (the image of a general-position
         # source under such a map is again in general position; the guard is re-evaluated on the real output)
         st["chain_ok"] = member[0] != "arb" and noise in NOISE_CHAIN and op[0] == "align"
@@ -1235,7 +1254,7 @@ class C07(Check):
     def _oracle(self, cls, d, al, src, tgt, s, t, member, noise, st):
         where = "%s/%dd" % (cls, d)
         fails = []
-        scl = max(1.0, float(np.abs(s).max()), float(np.abs(t).max()))
+        scl = max(self._unit, float(np.abs(s).max()), float(np.abs(t).max()))
         n = len(s)
 
         def bad(clause, detail):
@@ -1286,13 +1305,20 @@ class C07(Check):
             h = np.asarray(al.h_matrix)
             bottom = np.zeros(d + 1)
             bottom[-1] = 1.0
-            if h.shape != (d + 1, d + 1) or np.abs(h[d] - bottom).max() > (TOL_ID if self._k == 1.0 else 1e-3):
+            if h.shape != (d + 1, d + 1) or np.abs((h[d] - bottom) * np.append(np.full(d, self._unit), 1.0)).max() > (TOL_ID if self._k == 1.0 else 1e-3):  # (the projective entries are 1/length)
                 bad("homogeneous-form", "h_matrix bottom row %r" % (h[d] if h.ndim == 2 else h,))
                 return fails
             e = np.abs(apply_h(h, s) - a1).max()
             self._worst("apply-vs-h_matrix", e / scl)
             if e > self._t(TOL_ID) * scl * 10:
                 bad("aligned-source", "apply(source) differs from h_matrix applied to the source by %.3g" % e)
+            if self._unit != 1.0:
+                # magnitude letters: the family clauses are evaluated in units of the letter (translation, points
+                # and errors divided by it; the linear part is dimensionless), i.e. relative to the data magnitude
+                u = self._unit
+                h = h.copy()
+                h[:d, d] /= u
+                s, t, a1, err_ref, scl = s / u, t / u, a1 / u, err_ref / u, scl / u
             in_family = hm is not None and (member[0] in FAMILY[cls] or is_identity(member))
             if in_family and noise == 0.0 and self._exact:
                 e = np.abs(h - hm).max()
@@ -1733,6 +1759,7 @@ class C07(Check):
         need += ["route:%s" % r for r in ROUTE_NAMES] + ["route:agrees-with-constructor"]
         need += ["order:%s:%s" % (k, pn) for k in ("source", "grid") for pn in PERMS]
         need += ["perm:reversed", "perm:shuffle", "perm:agrees-with-original-order"]
+        need += ["scale:%g" % u for u in SCALES] + ["scale:%g:mirrored-target" % u for u in SCALES]
         need += ["route:%s:parameters-set" % r for r in ROUTES_VECTOR + ("set_rotation_matrix",)]
         need += ["refused:%s:ValueError" % k for k in ("set_target:n+1", "set_target:n-1", "set_target:dims", "apply:dims", "construct:n-mismatch", "construct:dims", "construct:3d", "gpa:one-source")]
         need += ["refused:apply:outside:TriangleContainmentError", "refused:apply:outside-batched:TriangleContainmentError", "refused:construct:singular:LinAlgError", "recheck:after-refused-calls"]
@@ -1779,6 +1806,7 @@ class C07(Check):
             "GPA: the clauses of the similarity alignment are applied to every returned transform against the target it reports; convergence itself is recorded, not demanded",
             "refused-call letters act on the live alignment built by a float64 'align' op with noise 0 or 0.1 (level 1, self loops); expected refusals: ValueError (set_target / apply / constructor with wrong size or dimensionality, TPS / PWA on 3-D data, GPA with one source), TriangleContainmentError with the exact outside mask (PWA), numpy LinAlgError (affine fit of collinear points); PWA from a 3-D PointCloud is not a letter (scipy's Qhull decides the outcome before menpo's check)",
             "order letters: permutations reversed / rotated by one / fixed shuffle; probe grid = multiples of 1/2 inside the source's bounding box (strictly inside a source triangle for PWA, at most 12 points), whose column sums are exact in any order; permuted correspondences at construction for the single alignments (GPA: not permuted - its iteration stops at a 1e-6 threshold, so only the per-transform clauses apply)",
+            "magnitude letters: the homogeneous alignment classes on the 4-point sources (2-D and 3-D), reduced members (mirrored targets included) x noise 0 / 0.1 with coordinates, member translation and noise multiplied by %s; all clauses are evaluated relative to that unit (no absolute epsilon); TPS (absolute min_singular_val), GPA (absolute 1e-6 stopping rule) and PWA are not given magnitude letters" % (SCALES,),
             "routes (level 0, reduced member alphabet x noise 0 / 0.1): %s; after from_vector / from_vector_inplace / set_rotation_matrix the target must be the aligned source and the error 0, then set_target(T) gets the full oracle; 2-D rotations and 3-D similarities are not vectorizable in menpo (NotImplementedError) and reflections have no rotation / similarity parameter vector, so those routes are not letters there; every alignment also answers apply(batch_size=2) and as_non_alignment() consistently" % ", ".join(ROUTE_NAMES),
             "argument forms (level 0, members %s, noise %s): float32 / int64 / int32 / int16 / uint8 payload (integer forms: the generic points x %g rounded; an integer target with a non-integer source is the exact image, source = member^-1(target)), python lists / tuples, read-only, non-contiguous and Fortran-ordered arrays (copy=False), options as numpy bools; the reference works in float64 on exactly the values passed; float32 letters use tolerances of 1e-3..1e-4; combinations the unchanged tree mishandles (listed under argument_form_exclusions) are not letters" % (", ".join(FORM_FAMILIES), NOISE_FORM, INT_SCALE),
             "noise = level x one fixed direction per (n, d) drawn from the seed; 'arbitrary' targets are unrelated generic point sets",
